@@ -99,7 +99,7 @@ def gen_case(r, k, same=None, long_=False):
     # inputPrefix: counts and gradients read from .count/.grad files before the first step
     if r.random() < 0.25:
         c["input"] = []       # one data set per prefix of the inputPrefix list
-        for _ in range(r.choice([1, 1, 2])):
+        for _ in range(r.choice([1, 1, 2, 3])):
             icnt = [r.choice([0, 0, 1, 2, 3, 5, 8]) for _ in range(nt)]
             c["input"].append({"cnt": icnt, "grad": [(V.dyadic(r, -4, 4, bits=2) if icnt[a] > 0 else 0.0) for a in range(nt) for _ in range(nd)]})
     # applyBias switched at run time (cv bias a set apply_force 0|1) before some steps
@@ -113,7 +113,9 @@ def gen_case(r, k, same=None, long_=False):
     # timeStepFactor k > 1 on the bias and its variables (only allowed with same-step total forces): they are
     # awake at the steps that are multiples of k (model: abf_mstep).  No restraint (its own timeStepFactor would be 1)
     # and no run-time switching.
-    c["tsf"] = r.choice([2, 3]) if (same and r.random() < 0.12) else 1
+    c["tsf"] = r.choice([2, 3, 3, 5, 6, 7, 12]) if (same and r.random() < 0.14) else 1
+    # the engine's step number at the start of the job (`setstep`): small, or beyond the range of int / of a double's integers
+    c["step0"] = r.choice([0, 0, 0, 1, 17, 2 ** 31 - 2, 2 ** 32 + 5, 2 ** 53 - 3, 2 ** 61 + 7])
     if c["tsf"] > 1:
         c["toggle"] = False
         for v in vars_:
@@ -125,6 +127,23 @@ def gen_case(r, k, same=None, long_=False):
     c["events"] = (not c["toggle"]) and c["tsf"] == 1 and r.random() < (0.7 if per1 else 0.3)
     # the abf bias defined while the simulation is running: 1..3 steps are made before its `config`
     c["late"] = (not c["toggle"]) and (not c["events"]) and c["tsf"] == 1 and r.random() < 0.15
+    # eABF: every variable is an extended-Lagrangian distanceZ (the bias bins the extended coordinate, its samples are the
+    # spring force on it one step late); lagged convention, no hideJacobian (excluded), other bias: harmonic on the extended coordinate
+    c["eabf"] = (not same) and (not c["toggle"]) and (not c["events"]) and (not c["late"]) and c["tsf"] == 1 and r.random() < 0.12
+    if c["eabf"]:
+        c["hideJ"] = False
+        c["T"] = r.choice([250.0, 1000.0])
+        c["scaled"] = False
+        c["sfac"] = []
+        c.pop("input", None)
+        for v in vars_:
+            v["sub"] = False      # (with subtractAppliedForce the code reports the spring force directly, the lagged model computes
+                                  #  (e + f) - f: equal in R, not bit for bit)
+            v["kind"], v["periodic"], v["lk"], v["walls"] = "dz", False, None, None
+            v.pop("P", None)
+            v["lower"] = V.dyadic(r, -4, 4, bits=3)
+            v["upper"] = v["lower"] + v["w"] * v["nx"]
+            v["ext"] = {"sigma": v["w"] * r.choice([0.5, 1.0, 2.0]), "tau": r.choice([10.0, 40.0])}
     nsteps = r.randint(60, 160) if long_ else r.randint(6, 26)
     steps = []
     prev = None
@@ -141,7 +160,10 @@ def gen_case(r, k, same=None, long_=False):
                     z = v["lower"] + r.randint(-1, v["nx"] + 1) * v["w"]
                 elif m < 0.88:   # inside the grid
                     z = v["lower"] + r.randint(0, v["nx"] * 8 - 1) * v["w"] / 8 + v["w"] / 16
-                else:            # outside
+                elif m < 0.92:   # just outside a boundary, by less than one bin (down to 1/1024 of a bin)
+                    dz = v["w"] / r.choice([2, 16, 1024])
+                    z = (v["lower"] - dz) if r.random() < 0.5 else (v["upper"] + dz)
+                else:            # far outside
                     z = v["lower"] + r.choice([-1, 1]) * (span + r.randint(1, 24) * v["w"] / 8) + (span if r.random() < .5 else 0)
                 if v["periodic"] and r.random() < 0.4:
                     z += r.randint(-2, 2) * v["P"]
@@ -161,17 +183,49 @@ def gen_case(r, k, same=None, long_=False):
         steps.append({"z": zs, "e": es, "boundary": boundary})
         prev = zs
     if c["events"]:
-        for _ in range(r.choice([1, 1, 2])):
+        for _ in range(r.choice([1, 1, 2, 3])):
             t = r.randint(2, nsteps - 1)
-            steps[t]["event"] = {"kind": "restart" if r.random() < 0.65 else "reload", "fmt": r.choice(["text", "binary"])}
+            # fmt: the state goes through a text file, a binary file, a string (formatted) or a memory buffer (unformatted)
+            steps[t]["event"] = {"kind": "restart" if r.random() < 0.65 else "reload", "fmt": r.choice(["text", "binary", "str", "buf"])}
             # the first step after a load re-executes the configuration that was saved (Colvars refuses a value that
             # differs from the saved one by more than half a bin width)
             steps[t]["z"] = list(steps[t - 1]["z"])
             if steps[t]["event"]["kind"] == "restart":
                 steps[t]["boundary"] = steps[t]["boundary"] and r.random() < 0.3
+                if r.random() < 0.4:
+                    # the job that loads the state has a configuration that legally differs: the grids are those of the
+                    # file, the ramp, the cap and applyBias those of the NEW configuration
+                    nf = r.randint(1, 6)
+                    steps[t]["event"]["newcfg"] = {"full": nf, "min": (r.randint(0, nf - 1) if nf > 1 else 0), "cap": r.random() < 0.5,
+                                                   "maxf": [r.choice([0.0, 0.5, 1.0, 2.0, 8.0]) for _ in range(nd)], "apply": r.random() < 0.85}
     for t in range(1, nsteps):
         if steps[t].get("event"):
             steps[t]["z"] = list(steps[t - 1]["z"])
+    # scale of the data: every length of the case (boundaries, widths, wall positions, restraint centres, values) multiplied by a
+    # power of two around 1e-8 or 1e8 (exact), the forces staying of order one
+    # (scales around 1e-8 are refused by the grid code itself: absolute tolerances 1e-10 on boundaries and widths, C15/C16)
+    c["scale"] = r.choice([1.0, 1.0, 1.0, 2.0 ** -10, 2.0 ** 27])
+    if c.get("eabf"):
+        c["scale"] = 1.0
+    if c["scale"] != 1.0:
+        S = c["scale"]
+        for d, v in enumerate(vars_):
+            if v["kind"] == "lin2":
+                continue          # (its second atom sits at a fixed offset)
+            for k_ in ("lower", "upper", "w", "hc", "c", "P"):
+                if k_ in v:
+                    v[k_] *= S
+            if v.get("walls"):
+                v["walls"]["lo"] *= S
+                v["walls"]["hi"] *= S
+            for st in steps:
+                st["z"][d] *= S
+    # a configuration that must be refused, given in the middle of the session (a second abf with minSamples >= fullSamples, or an
+    # abf on a variable that does not exist): the running bias must be unaffected
+    if r.random() < 0.2:
+        steps[r.randint(1, nsteps - 1)]["badconfig"] = r.choice(["minfull", "novar"])
+    # the abf block without a name: the bias gets the default name abf1
+    c["unnamed"] = r.random() < 0.2
     if c["late"]:
         npre = r.randint(1, 3)
         c["pre"] = [{"z": st["z"], "e": st["e"]} for st in steps[:npre]]
@@ -187,9 +241,26 @@ def gen_case(r, k, same=None, long_=False):
     return c
 
 
+def eff_cfg(c, t):
+    """the configuration of the job that executes step t: that of the case, with the changes of the last restart before or at t"""
+    out = c
+    for u in range(t + 1):
+        nc = c["steps"][u].get("event", {}).get("newcfg") if u < len(c["steps"]) else None
+        if nc:
+            out = dict(c)
+            out.update(nc)
+    return out
+
+
 def apply_at(c, st):
-    """applyBias at a step: the configured value, or what the last `cv bias a set apply_force` left"""
-    return st.get("apply", c["apply"])
+    """applyBias at a step: the configured value (of the job that executes the step), or what the last `cv bias a set apply_force` left"""
+    if "apply" in st:
+        return st["apply"]
+    if any(s_.get("event", {}).get("newcfg") for s_ in c["steps"]):
+        for t, s_ in enumerate(c["steps"]):
+            if s_ is st:
+                return eff_cfg(c, t)["apply"]
+    return c["apply"]
 
 
 def cv_applies(c, st, d):
@@ -340,6 +411,8 @@ def config_lines(c, part="all"):
             L += ["  timeStepFactor %d" % c["tsf"]]
         if v["sub"]:
             L += ["  subtractAppliedForce on"]
+        if v.get("ext"):
+            L += ["  extendedLagrangian on", "  extendedFluctuation %s" % fmt(v["ext"]["sigma"]), "  extendedTimeConstant %s" % fmt(v["ext"]["tau"])]
         if kind(v) == "dist":
             L += ["  distance {", "    group1 { atomNumbers %d }" % amap[d][1], "    group2 { atomNumbers %d }" % amap[d][0]]
             if v.get("onesite"):
@@ -355,7 +428,7 @@ def config_lines(c, part="all"):
         if v["periodic"]:
             L += ["    period %s" % fmt(v["P"]), "    wrapAround %s" % fmt(v["c"])]
         L += ["  }", "}"]
-    abf = ["abf {", "  name a", "  colvars " + " ".join("v%d" % d for d in range(nd)),
+    abf = ["abf {"] + ([] if c.get("unnamed") else ["  name a"]) + ["  colvars " + " ".join("v%d" % d for d in range(nd)),
            "  fullSamples %d" % c.get("full_cfg", c["full"]), "  minSamples %d" % c.get("min_cfg", c["min"]),
            "  applyBias %s" % ("on" if c["apply"] else "off"), "  updateBias %s" % ("on" if c["update"] else "off")]
     if c["cap"]:
@@ -413,6 +486,11 @@ def emit_inputs(c, st, amap):
     return L
 
 
+def bname(c):
+    """name of the abf bias: given, or the default name of the first abf"""
+    return "abf1" if c.get("unnamed") else "a"
+
+
 def state_name(c, n):
     return "%s_r%d" % (c["id"], n)
 
@@ -422,6 +500,8 @@ def scenario(c):
     amap, natoms = atom_map(c)
     L = ["echo CASE %s" % c["id"], "natoms %d" % natoms, "samestep %d" % (1 if c["same"] else 0), "includecv 1",
          "temperature %s" % fmt(c.get("T", 0.0)), "prefix %s" % c["id"], "new"]
+    if c.get("step0"):
+        L.append("setstep %d" % c["step0"])
     if c.get("pre"):
         # the abf bias is defined after the engine has made some steps with the variables and the other biases
         L += config_lines(c, "noabf")
@@ -438,21 +518,35 @@ def scenario(c):
         ev = st.get("event")
         if ev:
             # state file event before this step: save, (new instance with the same configuration,) load, dump
-            L.append("save %s %s.colvars.state" % (ev["fmt"], state_name(c, nev)))
+            L.append("save %s %s.colvars.state" % ("text" if ev["fmt"] in ("text", "str") else "binary", state_name(c, nev)))
             if ev["kind"] == "restart":
                 L.append("new")
+                cnew = dict(c)
+                cnew.update(ev.get("newcfg", {}))
+                for k_ in ("full_cfg", "min_cfg"):
+                    if ev.get("newcfg"):
+                        cnew.pop(k_, None)
+                c = cnew           # later restarts start from this configuration
                 L += config_lines(c)
                 cur_apply = c["apply"]
-            L += ["load %s" % state_name(c, nev), "echo LOADED", "dumpabf a"]
+            if ev["fmt"] in ("str", "buf"):
+                L += ["load%s %s.colvars.state" % (ev["fmt"], state_name(c, nev)), "echo LOADED", "dumpabf %s" % bname(c)]
+            else:
+                L += ["load %s" % state_name(c, nev), "echo LOADED", "dumpabf %s" % bname(c)]
             nev += 1
+        L += st.get("script", [])      # script commands given before this step (regression scenarios)
+        if st.get("badconfig"):
+            L += ["echo BADCONFIG", "config EOF", "abf {", "  name bad",
+                  "  colvars %s" % ("v0" if st["badconfig"] == "minfull" else "nosuchvariable"),
+                  "  fullSamples 2", "  minSamples %d" % (5 if st["badconfig"] == "minfull" else 0), "}", "EOF"]
         L += emit_inputs(c, st, amap)
         if apply_at(c, st) != cur_apply:
             cur_apply = apply_at(c, st)
-            L.append("script cv bias a set apply_force %d" % (1 if cur_apply else 0))
+            L.append("script cv bias %s set apply_force %d" % (bname(c), 1 if cur_apply else 0))
         if st["boundary"]:
             L.append("runboundary")
         L.append("step")
-        L.append("dumpabf a")
+        L.append("dumpabf %s" % bname(c))
     # second observation channel: the ABF block of the saved state (samples / gradient = value_output)
     L.append("save text %s.state" % c["id"])
     # third channel: the <prefix>.count / <prefix>.grad files written at the end of the run
@@ -467,7 +561,7 @@ def event_dataset(c, im, t, n):
     prev = im["steps"][t - 1]
     cnt = list(prev["cnt"])
     ev = c["steps"][t]["event"]
-    if ev["fmt"] == "text":
+    if ev["fmt"] in ("text", "str"):
         st = im.get("rstates", {}).get(n)
         if st is None:
             return None
@@ -491,7 +585,7 @@ def model_case(c, im=None):
     for v in vs:
         nt *= v["nx"]
     parts += [str(int(bool(c.get("scaled"))))] + [V.hexf(x) for x in (c["sfac"] if c.get("scaled") else [1.0] * nt)]
-    parts += [str(c.get("tsf", 1)), str(len(c.get("pre", [])))]
+    parts += [str(c.get("tsf", 1)), str(c.get("step0", 0) if c.get("tsf", 1) > 1 else 0), str(len(c.get("pre", [])))]
     parts += [str(len(inputs_of(c)))]
     for ds in inputs_of(c):
         parts += [str(x) for x in ds["cnt"]] + [V.hexf(g) for g in ds["grad"]]
@@ -505,6 +599,9 @@ def model_case(c, im=None):
             if ds is None:
                 ds = ([0] * nt, [0.0] * (nt * nd))
             parts += ["1" if ev["kind"] == "restart" else "2"] + [str(x) for x in ds[0]] + [V.hexf(g) for g in ds[1]]
+            if ev["kind"] == "restart":
+                nc = ev.get("newcfg")
+                parts += (["1", str(nc["full"]), str(nc["min"]), str(int(nc["cap"]))] + [V.hexf(m_) for m_ in nc["maxf"]]) if nc else ["0"]
             n += 1
         parts += ["0"]
         parts += [V.hexf(colvar_value(v, z)) for v, z in zip(vs, st["z"])]
@@ -517,7 +614,7 @@ def model_case(c, im=None):
 
 
 # ------------------------------------------------------------------------------- parsing
-KEYS = ("bin", "fbin", "cf", "tf", "af", "cnt", "sum", "go", "scr", "per", "nx")
+KEYS = ("bin", "fbin", "cf", "tf", "af", "cnt", "sum", "go", "scr", "xv", "zc", "zs", "per", "nx")
 
 
 def parse_fields(tokens):
@@ -531,7 +628,7 @@ def parse_fields(tokens):
         elif cur is not None:
             # a token cut short by a crash of the implementation (or garbage) never compares equal
             try:
-                if cur in ("bin", "fbin", "cnt", "per", "nx", "scr"):
+                if cur in ("bin", "fbin", "cnt", "per", "nx", "scr", "zc"):
                     out[cur].append(int(t))
                 else:
                     out[cur].append(float.fromhex(t))
@@ -545,6 +642,7 @@ nextload = False
 
 def parse_impl(text):
     global nextload
+    nextbad = False
     """output of c04unit for a batch -> {case id: {"config": str, "steps": [fields], "err": [..]}}"""
     res = {}
     cur = None
@@ -555,6 +653,7 @@ def parse_impl(text):
         if w[0] == "echo" and len(w) >= 3 and w[1] == "CASE":
             cur = {"config": None, "steps": [], "errs": [], "loads": [], "loaderr": []}
             nextload = False
+            nextbad = False
             res[w[2]] = cur
         elif cur is None:
             continue
@@ -562,8 +661,13 @@ def parse_impl(text):
             nextload = True
         elif w[0] == "LOAD":
             cur["loaderr"].append(w[1] if len(w) > 1 else "")
+        elif w[0] == "echo" and len(w) >= 2 and w[1] == "BADCONFIG":
+            nextbad = True
         elif w[0] == "CONFIG":
-            if cur["config"] is None or "err=ok" in cur["config"]:
+            if nextbad:
+                cur.setdefault("badcfg", []).append(line)
+                nextbad = False
+            elif cur["config"] is None or "err=ok" in cur["config"]:
                 cur["config"] = line
         elif w[0] == "STEP":
             cur["errs"].append(w[2] if len(w) > 2 else "")
@@ -647,7 +751,7 @@ def expected_samples(c):
             continue
         if c["same"]:
             rel, cont = clk[t]
-            elig = ((rel > 0 and not cont) or c["szd"]) and rel % c.get("tsf", 1) == 0
+            elig = ((rel > 0 and not cont) or c["szd"]) and (c.get("step0", 0) + rel) % c.get("tsf", 1) == 0
         else:
             if t + 1 >= n:
                 continue
@@ -753,7 +857,7 @@ def parse_state(path):
         txt = open(path, errors="replace").read()      # a binary state has no text block: None
     except OSError:
         return None
-    m = re.search(r"abf\s*\{.*?\nsamples\s*\n(.*?)\n\s*\ngradient\s*\n(.*?)\n\}", txt, flags=re.S)
+    m = re.search(r"abf\s*\{.*?\nsamples\s*\n(.*?)\n\s*\ngradient\s*\n(.*?)\n(?:\s*\n|\})", txt, flags=re.S)
     if not m:
         return None
     try:
@@ -776,6 +880,59 @@ def parse_multicol(path, nd, mult):
         return None
 
 
+def eabf_effective(c, impl_steps):
+    """eABF: the history the bias sees.  Value of each variable = its extended coordinate (taken from the implementation: its
+    integrator is C17's subject), system force = the spring force on the extended coordinate f = (-0.5 k) * (2 (x_ext - x)),
+    k = kB T / sigma^2, computed here from the positions given to the engine"""
+    import copy
+    ce = copy.deepcopy(c)
+    ce["eabf_actual"] = [list(st["z"]) for st in c["steps"]]
+    for t, st in enumerate(ce["steps"]):
+        if t >= len(impl_steps) or "xv" not in impl_steps[t]:
+            return None
+        xe = impl_steps[t]["xv"]
+        if any(not (abs(x_) < 1e6) for x_ in xe):
+            return "diverged"      # the extended coordinate ran away (bin numbers beyond int): skipped, not a C04 matter
+        for d, v in enumerate(c["vars"]):
+            k = KB * c["T"] / (v["ext"]["sigma"] * v["ext"]["sigma"])
+            st["e"][d] = (-0.5 * k) * (2.0 * (xe[d] - c["steps"][t]["z"][d]))
+            st["z"][d] = xe[d]
+    for v in ce["vars"]:
+        v.pop("ext", None)
+    ce["eabf"] = False
+    return ce
+
+
+def czar_oracle(c, ce, impl_steps):
+    """z_samples / z_gradients as colvarbias_abf::update fills them: at every step at which the bias accumulates, the sample
+    (force of the previous step) is added to the bin of the ACTUAL value of the current step"""
+    nd = len(c["vars"])
+    nt = 1
+    for v in c["vars"]:
+        nt *= v["nx"]
+    clk = clocks(ce)
+    zc, zs = [0] * nt, [Fr(0)] * (nt * nd)
+    for t in range(1, len(ce["steps"])):
+        rel, cont = clk[t]
+        if not (ce["update"] and rel > 0 and not cont):
+            continue
+        ix = bin_of(c, c["steps"][t])
+        if not in_grid(c, ix):
+            continue
+        st = ce["steps"][t - 1]
+        o = other_forces(ce, st)
+        a = address(c, ix)
+        zc[a] += 1
+        for d, v in enumerate(ce["vars"]):
+            zs[a * nd + d] -= Fr(st["e"][d]) + (Fr(0) if v["sub"] else Fr(o[d]))
+    last = impl_steps[-1]
+    if last.get("zc") != zc:
+        return [("czar:z-samples", "z_samples %s differ from the number of accumulation steps per bin of the actual value %s" % (last.get("zc"), zc))]
+    if "zs" not in last or not all(close(a_, b_) for a_, b_ in zip(zs, last["zs"])):
+        return [("czar:z-gradients", "z_gradients %s differ from minus the summed samples per bin of the actual value %s" % (last.get("zs"), [float(x) for x in zs]))]
+    return []
+
+
 def oracle(c, impl_steps, state=None, files=None, loads=None):
     """property oracle on the implementation's output alone; returns list of (signature, text)"""
     bad = []
@@ -790,25 +947,26 @@ def oracle(c, impl_steps, state=None, files=None, loads=None):
     clk_ = clocks(c)
     per1 = nd == 1 and c["vars"][0]["periodic"]
     for t, (st, f) in enumerate(zip(c["steps"], impl_steps)):
-        if clk_[t][0] % tsf != 0:
+        if (c.get("step0", 0) + clk_[t][0]) % tsf != 0:
             # bias and variables asleep: nothing is computed and nothing may be applied
             if any(x != 0.0 for x in f["af"]):
                 bad.append(("oracle:af", "step %d: timeStepFactor %d, the variables are asleep but apply the force %s" % (t, tsf, f["af"])))
                 break
             continue
-        exp = expected_abf_force(c, st, f["cnt"], f["sum"])
+        ce = eff_cfg(c, t)
+        exp = expected_abf_force(ce, st, f["cnt"], f["sum"])
         if not all(close(a, b) for a, b in zip(exp, f["cf"])):
             evs = [(u, c["steps"][u]["event"]["kind"], c["steps"][u]["event"]["fmt"]) for u in range(t + 1) if c["steps"][u].get("event")]
-            over = c["cap"] and any(abs(Fr(x)) > Fr(m) and not close(abs(x), m) for x, m in zip(f["cf"], c["maxf"]))
+            over = ce["cap"] and any(abs(Fr(x)) > Fr(m) and not close(abs(x), m) for x, m in zip(f["cf"], ce["maxf"]))
             # the same formula without the cap: is the cap what is wrong?
-            c_nocap = dict(c)
+            c_nocap = dict(ce)
             c_nocap["cap"] = False
             unc = expected_abf_force(c_nocap, st, f["cnt"], f["sum"])
-            cap_active = c["cap"] and any(abs(u_) > Fr(m) for u_, m in zip(unc, c["maxf"]))
+            cap_active = ce["cap"] and any(abs(u_) > Fr(m) for u_, m in zip(unc, ce["maxf"]))
             if over or cap_active:
                 bad.append(("force:cap", "step %d: maxForce %s: the ABF force is %s%s; ramp(count)*mean%s of the arrays at this step (counts %s, sums %s) is %s before the cap, "
                             "so the capped force must be %s (the cap is the last operation: it applies to the zero-mean force)"
-                            % (t, c["maxf"], f["cf"], " (LARGER in magnitude than maxForce)" if over else "",
+                            % (t, ce["maxf"], f["cf"], " (LARGER in magnitude than maxForce)" if over else "",
                                " minus the mean over all bins of the ramped means" if per1 else "", f["cnt"], f["sum"],
                                [float(x) for x in unc], [float(x) for x in exp])))
             elif per1:
@@ -912,7 +1070,7 @@ def oracle(c, impl_steps, state=None, files=None, loads=None):
             scnt, sgrad = state
             if scnt != cnt:
                 bad.append(("oracle:state-samples", "'samples' of the saved state %s differ from the number of attributed samples per bin %s" % (scnt, cnt)))
-            elif len(sgrad) != len(mean) or not all(close(a, b, 1e-12) for a, b in zip(mean, sgrad)):
+            elif len(sgrad) != len(mean) or not all(close(a, b, 1e-12 if c.get("scale", 1.0) == 1.0 else 1e-9) for a, b in zip(mean, sgrad)):
                 bad.append(("oracle:state-gradient", "'gradient' of the saved state %s is not minus the mean of the attributed samples %s" % (sgrad, [float(x) for x in mean])))
         if files is not None:
             fcnt, fgrad = files
@@ -1222,6 +1380,24 @@ def judge_walls_subtract(c, steps):
     return None
 
 
+def witness_subtract_switched():
+    """W15 (known): subtractAppliedForce switched on at run time (`cv colvar v0 set subtract_applied_force_from_total_force 1`) before
+    step 3; lagged forces, minSamples 0, fullSamples 1, applyBias on, engine force 2 at every step: every sample is 2."""
+    c = _c1("W15", _v1(), [(0.5, 2.0, False)] * 6, full=1, min=0, apply=True)
+    c["steps"][3]["script"] = ["script cv colvar v0 set subtract_applied_force_from_total_force 1"]
+    return c
+
+
+def judge_subtract_switched(c, steps):
+    last = steps[-1]
+    if last["cnt"][0] != 5 or last["sum"][0] != -10.0:
+        return ("lagged total forces, engine force 2 at every step, abf applying -2 from step 1 on, subtractAppliedForce switched on by script before step 3: "
+                "five samples of 2 (sum -10); the implementation has count %s and sum %s, total force reported at step 3: %s: at the step after the switch "
+                "neither the variable (f_old was not recorded while the option was off) nor the bias (which now trusts the variable) removes the ABF force of step 2"
+                % (last["cnt"][0], last["sum"][0], steps[3]["tf"][0]))
+    return None
+
+
 WITNESSES = ((witness_zero_total, "sample:subtractAppliedForce-zero-total-force", judge_zero_total),
              (witness_zero_total_abf, "sample:subtractAppliedForce-zero-total-force", judge_zero_total_abf),
              (witness_value_zero, "sample:force-dropped-at-value-zero", judge_value_zero),
@@ -1235,6 +1411,7 @@ WITNESSES = ((witness_zero_total, "sample:subtractAppliedForce-zero-total-force"
              (witness_input, "sample:inputPrefix-data", judge_input),
              (witness_restart_zero_mean, "force:periodic-zero-mean", judge_restart_zero_mean),
              (witness_walls_subtract, "sample:subtractAppliedForce-bypassing-bias-not-subtracted", judge_walls_subtract),
+             (witness_subtract_switched, "sample:subtractAppliedForce-switched-on-at-run-time", judge_subtract_switched),
              (witness_cap_order, "force:cap", judge_cap_order),
              (witness_reload_stale, "sample:reload-stale-total-force", judge_reload_stale),
              (witness_late, "sample:bias-defined-at-run-time-bin0", judge_late),
@@ -1291,13 +1468,19 @@ SHOWN = ("bin", "fbin", "cf", "tf", "af", "cnt", "sum", "go", "scr")
 def tie_case(run, c, im, mline):
     """implementation vs model, step by step, every field bit-exact"""
     # timeStepFactor > 1: the driver runs abf_mstep (awake / asleep steps)
+    if any(s_.get("script") for s_ in c["steps"]):
+        return      # variable-level options switched by script are constants of the model: judged by the oracle alone
     steps_i = im["steps"]
     msteps, spec = parse_model(mline) if mline is not None else ([], None)
     if len(msteps) != len(steps_i):
         run.mismatch("abf:steps", {"case": c}, len(steps_i), len(msteps))
         return
     for t, (a, b) in enumerate(zip(steps_i, msteps)):
-        if t == 0 and c.get("pre"):
+        if c.get("eabf_actual"):
+            # eABF: the reported total force is dumped after update_extended_Lagrangian has replaced it by this step's; the script
+            # entry points look at the actual value
+            bad = compare_fields(a, b, keys=("bin", "fbin", "cnt", "sum", "cf", "af", "go"))
+        elif t == 0 and c.get("pre"):
             # first update of a bias defined at run time: the reported total force of a variable that was already measuring
             # total forces (subtractAppliedForce) is that of the last step before the definition, which the model of the
             # bias does not contain; everything else is compared
@@ -1377,6 +1560,20 @@ def check(run):
             continue
         steps_i = im["steps"]
         nd = len(c["vars"])
+        if c.get("eabf"):
+            run.dist("eABF_cases")
+            ce = eabf_effective(c, steps_i)
+            if ce == "diverged":
+                run.dist("eABF_cases_skipped_extended_coordinate_diverged")
+                continue
+            if ce is None:
+                run.mismatch("abf:eabf-dump", {"case": c}, None, "extended coordinate dumped at every step")
+                continue
+            for sig, text in czar_oracle(c, ce, steps_i):
+                run.violation(sig, "case %s: %s" % (c["id"], text), {"kind": "case", "case": c})
+            c_orig, c = c, ce
+            mline = V.run_lines(model, [model_case(ce, im)])[1]
+            mout[k] = mline[0] if mline else None
         # evidence
         visited = set()
         outside = 0
@@ -1404,6 +1601,10 @@ def check(run):
         run.dist("inputPrefix_datasets", len(inputs_of(c)))
         run.dist("applyBias_switched_at_run_time", 1 if c.get("toggle") else 0)
         run.dist("abf_defined_at_run_time", 1 if c.get("pre") else 0)
+        run.dist("unnamed_abf", 1 if c.get("unnamed") else 0)
+        run.dist("scale_%g" % c.get("scale", 1.0))
+        run.dist("restart_with_new_configuration", sum(1 for s_ in c["steps"] if s_.get("event", {}).get("newcfg")))
+        run.dist("job_starts_at_huge_step", 1 if c.get("step0", 0) >= 2 ** 31 - 2 else 0)
         for stp in c["steps"]:
             if stp.get("event"):
                 run.dist("state_%s_%s" % (stp["event"]["kind"], stp["event"]["fmt"]))
@@ -1415,6 +1616,13 @@ def check(run):
             run.violation(sig, "case %s: %s" % (c["id"], text), {"kind": "case", "case": c})
         if im.get("state") is None:
             run.mismatch("abf:state-file", {"case": c}, None, "a text state with an abf block")
+        nbad = sum(1 for s_ in c["steps"] if s_.get("badconfig"))
+        if nbad:
+            run.dist("rejected_configuration_mid_session", nbad)
+            got = im.get("badcfg", [])
+            if len(got) != nbad or any("err=ok" in l_ for l_ in got):
+                run.violation("config:accepted-mid-session", "case %s: a configuration that must be refused (abf with minSamples >= fullSamples / on an unknown variable) given between two steps was answered %s"
+                              % (c["id"], got), {"kind": "case", "case": c})
         # tie: implementation vs model, step by step
         tie_case(run, c, im, mout[k] if k < len(mout) else None)
         if k < 2:
